@@ -39,9 +39,9 @@ var fixed = []core.Case{
 }
 
 func (prop) Gen(r *core.Rand, tier string) []core.Case {
-	n := 110
+	n := 80
 	if tier == "thorough" {
-		n = 1200
+		n = 450
 	}
 	cs := append([]core.Case(nil), fixed...)
 	for i := 0; i < n; i++ {
